@@ -364,6 +364,12 @@ def remove_qubit(tableau, qubit_position, measurement_determinism="probabilistic
     tableau, outcome, probabilistic = z_measurement_gate(
         tableau, qubit_position, measurement_determinism
     )
+    # The qubit is now in the Z eigenstate given by the outcome. A stabilizer generator that acts with Z on it keeps that
+    # eigenvalue as a sign once the qubit's column is dropped.
+    z_rows = (
+        np.nonzero(tableau.table[n_qubits:, qubit_position + n_qubits])[0] + n_qubits
+    )
+    tableau.phase[z_rows] = tableau.phase[z_rows] ^ int(outcome)
     new_table = np.delete(
         tableau.table, [qubit_position, qubit_position + n_qubits], axis=1
     )
